@@ -20,9 +20,20 @@ for sid in sorted(os.listdir(os.path.join(ROOT, "seeded"))):
         where = d.get("function") or d.get("functions") or d.get("files_functions") or d.get("changed") or ""
     else:
         what, where = str(d)[:300], ""
-    obs = "; ".join(v.replace("obligation: ", "") for r in m.get("checks_run", {}).values() for v in r.get("violations", []) if v.startswith("obligation"))
-    und = "; ".join(u for r in m.get("checks_run", {}).values() for u in r.get("undecided", []))[:160]
-    verdict = m.get("verdict", "caught" if m.get("caught") else "missed")
+    obs_l = []
+    for r in m.get("checks_run", {}).values():
+        for v in r.get("violations", []):
+            v = v.strip()
+            if v.startswith("obligation:"):
+                o = v.replace("obligation: ", "").strip()
+                if o not in obs_l:
+                    obs_l.append(o)
+    obs = "; ".join(obs_l[:4]) + (" …" if len(obs_l) > 4 else "")
+    und = "; ".join(u.replace("UNDECIDED: ", "") for r in m.get("checks_run", {}).values() for u in r.get("undecided", []))[:150]
+    exits = [r["exit"] for r in m.get("checks_run", {}).values()]
+    verdict = "caught" if 1 in exits else ("undecided" if 2 in exits else "missed")
+    if m.get("status") == "obsolete":
+        verdict = "missed at base commit, obsolete after fix D11"
     rows.append((sid, m.get("breaks_property"), verdict, obs or und, what.replace("\n", " ")[:220]))
 print("| seed | property | verdict | obligation(s) that fail / reason | change (as described by its author) |")
 print("|---|---|---|---|---|")
